@@ -7,9 +7,9 @@ BATCH_INVS = ("TypeOK ConcurrencyBound WgCount AllSettledAtPost NoFakeSuccess At
 
 # (Family, MaxItems, MaxC, MaxN, export)
 PLAN = {
-    "C06": dict(mc_q=[("seq", 3, 1, 2, True), ("gated", 3, 2, 1, True), ("conc", 2, 2, 2, False)],
-                mc_t=[("seq", 4, 1, 2, True), ("gated", 4, 3, 1, True), ("gated", 3, 2, 2, True), ("conc", 3, 2, 2, False)],
-                gen_q=("continue,stop,single,empty", 60), gen_t=("continue,stop,single,empty", 1500)),
+    "C06": dict(mc_q=[("seq", 3, 1, 2, True), ("gated", 3, 2, 1, True), ("gatedcancel", 2, 2, 1, True), ("conc", 2, 2, 2, False)],
+                mc_t=[("seq", 4, 1, 2, True), ("gated", 4, 3, 1, True), ("gated", 3, 2, 2, True), ("gatedcancel", 3, 2, 2, True), ("conc", 3, 2, 2, False)],
+                gen_q=("continue,stop,cancel,single,empty", 60), gen_t=("continue,stop,cancel,single,empty", 1500)),
     "C07": dict(mc_q=[("seq", 3, 1, 2, True), ("gated", 3, 2, 2, True), ("conc", 2, 2, 2, False)],
                 mc_t=[("seq", 4, 1, 3, True), ("gated", 3, 2, 2, True), ("gated", 4, 3, 1, True), ("conc", 3, 2, 2, False)],
                 gen_q=("continue", 150), gen_t=("continue", 4000)),
@@ -79,13 +79,28 @@ def collect(pid, tier, seed, d, binp):
     fails, drifts, summ = judge_histories(d, "TPBatch", hist, pid, shards=8)
     log("judged %d batch histories (%d events): %d failing, %d drifting" % (summ.get("scenarios", 0), summ.get("events", 0), len(fails), len(drifts)))
 
+    # code -> spec: recorded histories (of a size TLC can search) must be explained by FlytBatch
+    def small(r):
+        c = r["cfg"]
+        return (c["via"] != "flow" and c["n"] <= 6 and c["c"] <= 3 and c["sched"] != "barrier"
+                and not any(e["ev"] in ("stuck", "hang", "panic", "routed") for e in r["h"]))
+    tv_n, tv_ok, tv_states, tv_trans = trace_validate(d, "TraceBatch", hist, keep=small, shards=8)
+    states += tv_states
+    transitions += tv_trans
+    unexplained = tv_n - len(tv_ok)
+    mc_info.append({"spec": "TraceBatch (trace validation of recorded histories, silent internal steps inferred)", "histories": tv_n,
+                    "explained": len(tv_ok), "distinct_states": tv_states, "states_generated": tv_trans})
+    log("trace validation against FlytBatch: %d of %d histories explained" % (len(tv_ok), tv_n))
+
     violations, known_hits, stalls = [], {}, 0
     if fails:
         scns = load_scenarios(hist)
         known = known_signatures(pid)
         # the recorded history is the evidence (concurrent runs are not replayable bit for bit):
         # re-validate the failing histories in a fresh TLC run, and re-execute them for the record
-        bad_ids = sorted({f[0] for f in fails if f[1] == pid})
+        # (a change that breaks the property typically fails thousands of scenarios: confirm a sample)
+        bad_ids = sorted({f[0] for f in fails if f[1] == pid})[:40]
+        fails = [f for f in fails if f[0] in set(bad_ids)]
         rp = os.path.join(d, "batch_recheck.ndjson")
         with open(rp, "w") as f:
             for i in bad_ids:
@@ -132,7 +147,7 @@ def collect(pid, tier, seed, d, binp):
         pass
     return dict(states=states, transitions=transitions, scenarios=summ.get("scenarios", 0), events=summ.get("events", 0),
                 hits={k: v for k, v in summ.items() if k not in ("scenarios", "events")}, violations=violations, known_hits=known_hits,
-                drifts=len(drifts), mc_info=mc_info, samples=samples, exported=len(scn_lines), modes=modes, count=count,
+                drifts=len(drifts) + unexplained, mc_info=mc_info, samples=samples, exported=len(scn_lines), modes=modes, count=count,
                 scheduling_stalls_discarded=stalls)
 
 
